@@ -375,6 +375,38 @@ theorem le_childHi (f : Fib Int (AF π)) (re : Int) (h : childHi f = some re) : 
 
 end flat
 
+/-! ### swizzle's active-range reset -/
+
+theorem foldl_min_le' : ∀ (l : List Int) (a : Int), l.foldl min a ≤ a ∧ ∀ x ∈ l, l.foldl min a ≤ x
+  | [], a => ⟨Int.le_refl _, fun _ h => by cases h⟩
+  | y :: l, a => by
+    have ih := foldl_min_le' l (min a y)
+    rw [List.foldl_cons]
+    refine ⟨by have := ih.1; omega, ?_⟩
+    intro x hx
+    rcases List.mem_cons.1 hx with rfl | h
+    · have := ih.1; omega
+    · exact ih.2 x h
+
+theorem le_foldl_max' : ∀ (l : List Int) (a : Int), a ≤ l.foldl max a ∧ ∀ x ∈ l, x ≤ l.foldl max a
+  | [], a => ⟨Int.le_refl _, fun _ h => by cases h⟩
+  | y :: l, a => by
+    have ih := le_foldl_max' l (max a y)
+    rw [List.foldl_cons]
+    refine ⟨by have := ih.1; omega, ?_⟩
+    intro x hx
+    rcases List.mem_cons.1 hx with rfl | h
+    · have := ih.1; omega
+    · exact ih.2 x h
+
+theorem head_le_of_asc : ∀ (cs : List Int), cs.Pairwise (· < ·) → ∀ c ∈ cs, ∃ h, cs.head? = some h ∧ h ≤ c
+  | [], _, c, hc => by cases hc
+  | a :: r, hp, c, hc => by
+    refine ⟨a, rfl, ?_⟩
+    rcases List.mem_cons.1 hc with rfl | h
+    · exact Int.le_refl _
+    · exact Int.le_of_lt ((List.pairwise_cons.1 hp).1 c h)
+
 /-! ### two-operand merges keep the first operand's coordinates -/
 
 section merge
